@@ -28,7 +28,7 @@ META = dict(
           "== observable, anomalies=True => anomaly() == windowed "
           "observable(); global window restores the initial view and derived "
           "series byte for byte. Windows selecting no sample on an axis are "
-          "not applied (the library cannot build an empty grid). "
+          "and leave the object as it was. "
           "non-trivial = distinct (data, history) containing a window that "
           "is a proper subset in time and in space."),
     floors={"quick": {"histories": 1500, "states_observed": 4000,
@@ -81,6 +81,9 @@ META["rule"] += (
 
 META["rule"] += (
     " " + 'Added after the fifth round: whole-numbered axes handed over as int64 / int32 / int16 in half of the cases; the windowed observable is read once more after all derived quantities of a state; the anomalies switch as bool / np.bool_ / 0-1.')
+
+META["rule"] += (
+    " " + 'Added later: windows that select no sample are applied too: the library must refuse them and the object must then be in the state it was in.')
 
 KEYS = ("time_min", "time_max", "lat_min", "lat_max", "lon_min", "lon_max")
 
@@ -620,7 +623,20 @@ def run_history(ctx, Data, ClimateData, GeoGrid, cid, r, climate):
                 w, kinds = gen_window(r, m)
             tm, sm = m.masks(w)
             if not tm.any() or not sm.any():
-                ctx.count("empty_selection_skipped")
+                # a window that selects no sample: the library refuses it
+                # (it cannot build an empty grid) - and is then what it was
+                ok, e = ctx.call(d.set_window, dict(w))
+                ctx.evals()
+                if ok:
+                    ctx.count("empty_selection_accepted")
+                    return
+                ctx.count("empty_selection_refused")
+                case["history"].append(
+                    ["set_window (refused: selects nothing)",
+                     {k: float(v) for k, v in w.items()}])
+                if observe(ctx, d, m, cls, kind, cid, case, climate,
+                           prev=prev_view) is None:
+                    return
                 continue
             if r.random() < 0.4:
                 # the caller keeps one window dictionary and edits it in
